@@ -4,6 +4,8 @@ package main
 
 import (
 	"go/token"
+	"go/types"
+	"math"
 	"fmt"
 	"strings"
 
@@ -195,7 +197,27 @@ func checkChooser(c *Ctx, ch *ssa.Function) {
 			share = stripConv(share)
 			num, den := share.Args[0], share.Args[1]
 			ad, okSum := sumAddend(tb, den)
+			// a share spelt in per cent (100*weight/sum against 10) is the same test, as long as the division is
+			// not an integer division, which cuts 10.5 down to 10
+			scale := 1.0
+			if n0 := stripConv(num); n0.isBin("*") && len(n0.Args) == 2 {
+				for j := 0; j < 2; j++ {
+					if sc, isSc := n0.Args[j].constFloat(); isSc && sc != 0 && stripConv(n0.Args[1-j]).String() == wgt {
+						scale = sc
+						num = &Term{Op: "conv", Name: "float64", Args: []*Term{parseTerm(wgt)}}
+					}
+				}
+			}
+			intDiv := false
+			if share.V != nil {
+				if bt, isB := share.V.Type().Underlying().(*types.Basic); isB && bt.Info()&types.IsInteger != 0 {
+					intDiv = true
+				}
+			}
+			k = k / scale
 			switch {
+			case intDiv && !(flipped != at.Neg):
+				st, why = broken, "the share is worked out by an integer division: it is cut down to a whole number before it is compared, so a codon whose share lies just above the threshold (10.5% against 10) is not eligible"
 			case flipped != at.Neg && a.isBin("<") && flipped:
 				// !(share < K)  == share >= K
 				st, why = broken, "a codon is eligible when its share is >= the threshold; the property requires strictly above 10%"
@@ -203,7 +225,7 @@ func checkChooser(c *Ctx, ch *ssa.Function) {
 				st, why = broken, "a codon is offered when its share is NOT above the threshold (test inverted)"
 			case a.isBin("<=") && !flipped:
 				st, why = broken, "a codon is eligible when its share is >= the threshold; the property requires strictly above 10%"
-			case k != 0.1:
+			case math.Abs(k-0.1) > 1e-12:
 				st, why = broken, fmt.Sprintf("eligibility threshold is %v, want 0.10", k)
 			case num.String() != "conv[float64]("+wgt+")":
 				st = stateOf(false, vocabOf(wgt), num)
